@@ -115,9 +115,14 @@ def organizeNode (g : Graph) (all targets : List Target) (rid : Option Nat) (n :
 
 def addQ (q : List Name) (n : Name) : List Name := if n ∈ q then q else q ++ [n]
 
+/-- insert `n` behind every entry whose level is not larger (keeps the sort stable) -/
+def insLevel (g : Graph) (n : Name) : List Name → List Name
+  | [] => [n]
+  | m :: ms => if g.level m ≤ g.level n then m :: insLevel g n ms else n :: m :: ms
+
 /-- `sorted(..., key=lambda i: i.get('level'))` (stable) -/
 def byLevel (g : Graph) (q : List Name) : List Name :=
-  q.mergeSort (fun a b => decide (g.level a ≤ g.level b))
+  q.foldl (fun acc n => insLevel g n acc) []
 
 /-- `schedule.organize(task_names, runid, targets, event)` -/
 def organize (g : Graph) (s : St) (names : List Name) (rid : Option Nat) (targets : List Target) :
@@ -169,17 +174,25 @@ def putMsgs (g : Graph) (x : Name) (nd : Node) (runid : Nat) : List Msg :=
   | .task => nd.do_.map fun t => ⟨x, t, runid⟩
   | .regress => nd.do_.map fun t => ⟨x, t, 0⟩
 
+/-- `farm.rerunid`: the run id the event carried, else a fresh one from `db.next()` -/
+def jobRunid (s : St) (nd : Node) : Nat :=
+  match nd.runid with
+  | some r => r
+  | none => s.nextRun
+
+/-- what `db.next()` returns after `rerunid` -/
+def nextAfter (s : St) (nd : Node) : Nat :=
+  match nd.runid with
+  | some _ => s.nextRun
+  | none => s.nextRun + 1
+
 /-- the `_jobs` loop of `farm.dispatch` for one released job: `rerunid`, status := running,
     `_put` per target, `do.clear()` -/
 def putJob (g : Graph) (s : St) (x : Name) : St :=
-  let nd := s.node x
-  let (rid, next) := match nd.runid with
-    | some r => (r, s.nextRun)
-    | none => (s.nextRun, s.nextRun + 1)
   { s with
-    node := setNode s.node x { nd with status := .running, do_ := [] }
-    nextRun := next
-    msgs := s.msgs ++ putMsgs g x nd rid }
+    node := setNode s.node x { s.node x with status := .running, do_ := [] }
+    nextRun := nextAfter s (s.node x)
+    msgs := s.msgs ++ putMsgs g x (s.node x) (jobRunid s (s.node x)) }
 
 def dedupNames : List Name → List Name
   | [] => []
@@ -194,12 +207,18 @@ def dispatch (g : Graph) (s : St) : St × List (Name × Target) :=
     let jobs := byLevel g (dedupNames (r.2.map (·.1)))
     (jobs.foldl (putJob g) r.1, r.2)
 
+/-- what `schedule.complete` does to the node: the target leaves `doing` (an all-targets
+    completion clears it), and the status falls back to waiting once nothing is executing -/
+def completeNode (t : Target) (nd : Node) : Node :=
+  { nd with
+    doing := if t = ALL then [] else nd.doing.filter (fun u => u != t)
+    status := if (if t = ALL then [] else nd.doing.filter (fun u => u != t)).isEmpty then .waiting
+              else nd.status }
+
 /-- `schedule.complete` (queue / status part and the history append) -/
 def complete (s : St) (x : Name) (t : Target) (o : Outcome) (rid : Nat) : St :=
-  let nd := s.node x
-  let doing' := if t = ALL then [] else nd.doing.filter (fun u => u != t)
-  let nd' := { nd with doing := doing', status := if doing'.isEmpty then .waiting else nd.status }
-  prune { s with node := setNode s.node x nd', chron := s.chron ++ [⟨x, t, o, rid⟩] }
+  prune { s with node := setNode s.node x (completeNode t (s.node x)),
+                 chron := s.chron ++ [⟨x, t, o, rid⟩] }
 
 /-- the body of `_purge` for one node: pending work is withdrawn; what a running node is
     executing stays until its own result arrives -/
